@@ -189,11 +189,13 @@ Theorem C09_decorator_correct {A} (func : MS A) Pre Post s L r s' :
        keeps (heldn L) s s' ∧ Post s a s'.
 Proof. exact (try_to_reorder_correct func Pre Post s L r s'). Qed.
 
-(** the internal signal never reaches the caller of a decorated operation *)
+(** the internal signal never reaches the caller of a decorated operation,
+    for EVERY value of [max_nodes] (with a bounded table the additional
+    outcome is [Err ERuntime], never the signal) *)
 Theorem C09_decorator_no_signal {A} (func : MS A) Pre Post s L r s' :
   sifting_ok' →
   op_spec func (heldn L) Pre Post →
-  Inv s → Counts s L → Pre s → rctx s = false → max_nodes s = None →
+  Inv s → Counts s L → Pre s → rctx s = false →
   try_to_reorder func s = (r, s') →
   r ≠ Err ENeedsReordering.
 Proof. exact (try_to_reorder_no_signal func Pre Post s L r s'). Qed.
